@@ -54,6 +54,16 @@ type gen struct {
 	// so that the tree clauses and the round trip are exercised.
 	hostile bool
 	multi   map[string]bool // macro names that (may) have several values
+	curSnip string          // snippet whose body is being generated
+}
+
+func snipRank(n string) int {
+	for i, s := range snippetNames {
+		if s == n {
+			return i
+		}
+	}
+	return -1
 }
 
 func (g *gen) f(s string) { g.feat[s] = true }
@@ -208,9 +218,24 @@ func (g *gen) eol() {
 }
 
 func (g *gen) importLine(d int) {
+	pool := g.snips
+	if !g.hostile && g.curSnip != "" {
+		// keep snippet references acyclic in inputs that are meant to parse
+		pool = nil
+		for _, n := range g.snips {
+			if snipRank(n) < snipRank(g.curSnip) {
+				pool = append(pool, n)
+			}
+		}
+		if len(pool) == 0 {
+			g.indent(d)
+			g.b.WriteString("noimport v")
+			g.eol()
+			return
+		}
+	}
 	g.f("import")
 	g.indent(d)
-	pool := g.snips
 	if len(pool) == 0 || (g.hostile && g.p.Chance(1, 8)) {
 		pool = snippetNames
 		g.f("import-maybe-undefined")
@@ -228,6 +253,12 @@ func (g *gen) importLine(d int) {
 		g.b.WriteString(prng.Pick(g.p, pool) + " extra")
 	case 2:
 		g.b.WriteString(`"` + prng.Pick(g.p, pool) + `"`)
+	case 3:
+		g.b.WriteString(prng.Pick(g.p, pool))
+		if g.hostile {
+			g.f("import-with-block")
+			g.b.WriteString(prng.Pick(g.p, []string{" { }", " {" + g.nl + " k v" + g.nl + "}", " {" + g.nl + "}"}))
+		}
 	default:
 		g.b.WriteString(prng.Pick(g.p, pool))
 	}
@@ -342,9 +373,12 @@ func (g *gen) snippetDecl() {
 	g.b.WriteString(" {")
 	g.eol()
 	k := g.p.Weighted([]int{5, 25, 30, 20, 10, 10})
+	prev := g.curSnip
+	g.curSnip = name
 	for i := 0; i < k; i++ {
 		g.item(1, true)
 	}
+	g.curSnip = prev
 	g.b.WriteString("}")
 	g.eol()
 }
@@ -666,6 +700,9 @@ func importChain(k int, kind string, fan int) string {
 		def(0, name(1))
 		def(1, "")
 		use()
+	case "import-with-block":
+		def(0, "")
+		fmt.Fprintf(&b, "top {\n import %s {\n  inner v\n }\n}\nimport %s { }\n", name(0), name(0))
 	}
 	return b.String()
 }
